@@ -27,6 +27,16 @@ def run_case(case):
                     st["n"] += 1
                     return st["n"]
                 src = Stream.from_periodic(cb, poll_interval=sp["poll"] / TICKS_PER_S, asynchronous=True)
+            elif sp["k"] == "textfile":
+                # a real file holding sp["lines"] complete lines (values n are written as "n\n"); more lines can be appended
+                # by the action ["append", [n, ...]]; the sink receives the int of every line
+                import os, tempfile
+                fd, fn = tempfile.mkstemp(prefix="c18_", suffix=".txt")
+                os.close(fd)
+                with open(fn, "w") as f:
+                    f.write("".join("%d\n" % v for v in sp["lines"]))
+                st["tmpfile"] = fn
+                src = Stream.from_textfile(fn, poll_interval=sp.get("poll", 2) / TICKS_PER_S, asynchronous=True, start=False)
             else:
                 src = Stream.from_iterable(list(sp["items"]), asynchronous=True)
             def react(x):
@@ -46,7 +56,7 @@ def run_case(case):
             orig = snk.update
 
             def wrapped(x, who=None, metadata=None):
-                st["deliv"].append([loop.ticks(), x])
+                st["deliv"].append([loop.ticks(), int(x) if sp["k"] == "textfile" else x])
                 return orig(x, who=who, metadata=metadata)
             snk.update = wrapped
             st["src"], st["snk"] = src, snk
@@ -80,6 +90,9 @@ def run_case(case):
                 loop.settle()
             elif a[0] == "adv":
                 loop.advance(a[1] / TICKS_PER_S)
+            elif a[0] == "append":
+                with open(st["tmpfile"], "a") as f:
+                    f.write("".join("%d\n" % v for v in a[1]))
             obs.append(observe())
         return obs
     finally:
@@ -87,6 +100,16 @@ def run_case(case):
             st["snk"].destroy()
         except Exception:
             pass
+        if st.get("tmpfile"):
+            try:
+                st["src"].file.close()
+            except Exception:
+                pass
+            try:
+                import os
+                os.remove(st["tmpfile"])
+            except Exception:
+                pass
         vloop.dispose(loop)
 
 
